@@ -265,7 +265,17 @@ class _NP(types.ModuleType):
         return _ret(r)
 
     @staticmethod
-    def clip(x, lo, hi, **k):
+    def clip(x, lo=None, hi=None, **k):
+        lo = k.pop("a_min", k.pop("min", lo))
+        hi = k.pop("a_max", k.pop("max", hi))
+        if lo is None and hi is None:
+            raise ValueError("One of max or min must be given")
+        if hi is None:
+            u = _np.frompyfunc(lambda a, l: core.sv_max(a, l), 2, 1)
+            return _ret(u(to_obj(x), to_obj(lo)))
+        if lo is None:
+            u = _np.frompyfunc(lambda a, h: core.sv_min(a, h), 2, 1)
+            return _ret(u(to_obj(x), to_obj(hi)))
         u = _np.frompyfunc(lambda a, l, h: core.sv_min(core.sv_max(a, l), h), 3, 1)
         return _ret(u(to_obj(x), to_obj(lo), to_obj(hi)))
 
